@@ -495,8 +495,18 @@ func init() {
 						for k, v := range out.Public {
 							op[k] = v.ECDSA
 						}
-						return J{"err": false, "share": algScHex(out.ECDSA), "pubs": pubsOut(op), "pk": algPtHex(out.PublicPoint()), "chain": chainOpt(out.ChainKey),
+						first := J{"err": false, "share": algScHex(out.ECDSA), "pubs": pubsOut(op), "pk": algPtHex(out.PublicPoint()), "chain": chainOpt(out.ChainKey),
 							"oldShare": algScHex(cfg.ECDSA)}
+						// a sibling derived afterwards from the SAME parent object must be the same child (property-level observation)
+						var again *cmpconfig.Config
+						if useBip {
+							again, err = cfg.DeriveBIP32(idx)
+						} else {
+							again, err = cfg.Derive(adjust, newChain)
+						}
+						first["valid"] = err == nil && again.ECDSA.Equal(out.ECDSA) && again.PublicPoint().Equal(out.PublicPoint()) &&
+							algScHex(out.ECDSA) == first["share"]
+						return first
 					}
 					cfg := &frostkeygen.Config{ID: party.ID(unhx(ids[0])), Threshold: 1, PrivateShare: share, PublicKey: pk, ChainKey: chain,
 						VerificationShares: party.NewPointMap(pm)}
@@ -510,8 +520,18 @@ func init() {
 					if err != nil {
 						return J{"err": true}
 					}
-					return J{"err": false, "share": algScHex(out.PrivateShare), "pubs": pubsOut(out.VerificationShares.Points), "pk": algPtHex(out.PublicKey),
+					first := J{"err": false, "share": algScHex(out.PrivateShare), "pubs": pubsOut(out.VerificationShares.Points), "pk": algPtHex(out.PublicKey),
 						"chain": chainOpt(out.ChainKey), "oldShare": algScHex(cfg.PrivateShare)}
+					// a sibling derived afterwards from the SAME parent object must be the same child (property-level observation)
+					var again *frostkeygen.Config
+					if useBip {
+						again, err = cfg.DeriveChild(idx)
+					} else {
+						again, err = cfg.Derive(adjust, newChain)
+					}
+					first["valid"] = err == nil && again.PrivateShare.Equal(out.PrivateShare) && again.PublicKey.Equal(out.PublicKey) &&
+						algScHex(out.PrivateShare) == first["share"]
+					return first
 				}))
 			case 13: // Doerner: Derive on BOTH configs of one key. `valid` is the property-level observation:
 				// the derived additive shares still open the derived public key AND both carry a 32-byte chain key.
